@@ -31,6 +31,12 @@ Prelude ==
            [e |-> "expect", a |-> <<1, 7, 0, 0, 0, 0, 0, 0, 0, 0, 0, 0, 0, 0, 0, 0, 100, 1, 1, 1, 2>>],
            [e |-> "expect", a |-> <<2, 7, 1, 0, 0, 0, 0, 0, 0, 0, 0, 0, 0, 0, 0, 0, 200, 0, 99, 2, 1>>]>>
            \o <<Exp(3, 5, 1, 1, 2, 2)>>
+    [] Population = 4 ->      \* an entry of two sequences, blocked in the one that stays alive while the other one dies
+         <<Ev("mock", <<0>>), Ev("seq", <<1>>), Ev("seq", <<2>>), Ev("obj", <<1>>),
+           [e |-> "expect", a |-> <<1, 5, 0, 1, 0, 0, 0, 0, 0, 0, 0, 0, 0, 0, 0, 0, 100, 1, 1, 2, 0>>],     \* f(0), first in sequence 2
+           [e |-> "expect", a |-> <<2, 7, 0, 1, 1, 0, 0, 0, 0, 0, 0, 0, 0, 0, 0, 0, 200, 1, 2, 1, 2>>],     \* f(1), in sequences 1 and 2
+           [e |-> "expect", a |-> <<3, 7, 0, 1, 2, 0, 0, 0, 0, 0, 0, 0, 0, 0, 0, 0, 300, 0, 99, 2, 1>>],    \* f(2), in sequences 2 and 1
+           Ev("watch", <<1, 1, 2, 1, 2>>)>>                                                               \* monitor in both
 
 DestroyOps ==
   CASE Population = 1 -> {Ev("release", <<1>>), Ev("release", <<2>>), Ev("release", <<3>>), Ev("mmock", <<0, 1>>),
@@ -39,6 +45,8 @@ DestroyOps ==
                           Ev("dtracer", <<2>>), Ev("dobj", <<1>>), Ev("unwatch", <<1>>), Ev("unwatch", <<2>>)}
     [] Population = 3 -> {Ev("release", <<1>>), Ev("release", <<2>>), Ev("release", <<3>>), Ev("dmock", <<0>>), Ev("dmock", <<1>>),
                           Ev("dseq", <<1>>), Ev("dseq", <<2>>), Ev("mmock", <<0, 2>>)}
+    [] Population = 4 -> {Ev("release", <<1>>), Ev("release", <<2>>), Ev("release", <<3>>), Ev("dseq", <<1>>), Ev("dseq", <<2>>),
+                          Ev("dobj", <<1>>), Ev("unwatch", <<1>>)}
 
 VARIABLES st, remaining, hist
 vars == <<st, remaining, hist>>
@@ -50,6 +58,7 @@ Enabled(s, op) == Step(s, op).obs.skip = 0
 Probes(s) ==      \* a call on every function that had expectations, on every mock still alive
   LET ms == SeqToSetSeq({m \in Mocks : s.malive[m]})
   IN  [i \in 1..Len(ms) |-> Ev("call", <<ms[i], 1, 0, 0>>)] \o [i \in 1..Len(ms) |-> Ev("call", <<ms[i], 4, 0, 0>>)]
+      \o (IF Population = 4 THEN [i \in 1..Len(ms) |-> Ev("call", <<ms[i], 1, 1, 0>>)] \o [i \in 1..Len(ms) |-> Ev("call", <<ms[i], 1, 2, 0>>)] ELSE <<>>)
 
 RECURSIVE PreludeOk(_, _)
 PreludeOk(s, evs) == evs = <<>> \/ (Step(s, Head(evs)).obs.skip = 0 /\ PreludeOk(Step(s, Head(evs)).st, Tail(evs)))
@@ -58,7 +67,7 @@ Next ==
   \E op \in remaining :
      /\ Enabled(st, op)
      /\ LET s1 == Step(st, op).st
-            ps == IF s1.unspec THEN <<>> ELSE Probes(s1)
+            ps == IF s1.unspec /\ Population # 4 THEN <<>> ELSE Probes(s1)
         IN  /\ st' = Fold(s1, ps)
             /\ hist' = hist \o <<op>> \o ps
      /\ remaining' = remaining \ {op}
